@@ -61,6 +61,57 @@ def make(ctx, reaction, fast, Cd, fast_ratio):
     return w, iso, rec, env
 
 
+def _overflow(ctx, branch_exprs, site):
+    """R6 'never fail to compute for physical inputs': every exponential of the end-of-irradiation activity is evaluated, for
+    every row of activation.dat of the branch's kind, at the corners of the stated domain (fluence 1e2..1e16, exposure
+    1e-3..1e4 h, Cd ratio, fast ratio); an argument above 709.78 is an input on which math.exp/expm1 raise OverflowError."""
+    import itertools
+    import math
+    text = ctx.src.data_file("periodictable/activation.dat")
+    rows = [r.split("\t") for r in text.split("\n") if r.strip() != ""]
+    data = [r for r in rows if r[0].strip() not in ("", "xx")]
+    strip = lambda c_: c_[1:-1] if c_.startswith('"') else c_
+    names = folder(ctx).const("activation", "COLUMN_NAMES")
+    col = {nm: i for i, nm in enumerate(names)}
+    num = lambda r, nm: float(strip(r[col[nm]])) if strip(r[col[nm]]).strip() else 0.0
+    P = lambda n: sp.Symbol(n, positive=True)
+    syms = [P(n) for n in ("phi", "xs", "res", "Th", "Thp", "xsp", "resp", "t", "c", "fr")]
+    nargs = nrows = 0
+    worst = None
+    for (label, reaction, fast), y in branch_exprs.items():
+        args = sorted({e.args[0] for e in sp.sympify(y).atoms(sp.exp)}, key=str)
+        if not args:
+            continue
+        fns = [sp.lambdify(syms, a_, modules="math") for a_ in args]
+        kind = lambda r: "b" if strip(r[col["reaction"]]) == "b" else "2n" if strip(r[col["reaction"]]) == "2n" else "act"
+        mine = [r for r in data if kind(r) == reaction and (strip(r[col["fast"]]) == "y") == bool(fast)]
+        for r in mine:
+            nrows += 1
+            vals = [num(r, n) for n in ("thermalXS", "resonance", "Thalf_hrs", "Thalf_parent", "thermalXS_parent", "resonance_parent")]
+            if vals[2] <= 0:
+                continue
+            for phi, tt, cc, fr in itertools.product((1e2, 1e16), (1e-3, 1e4), (1e-9, 19.0), (1.0, 50.0)):
+                for a_, fn in zip(args, fns):
+                    nargs += 1
+                    try:
+                        v = fn(phi, vals[0], vals[1], vals[2], vals[3] or 1.0, vals[4], vals[5], tt, cc, fr)
+                    except (OverflowError, ZeroDivisionError, ValueError):
+                        continue
+                    if isinstance(v, complex) or v != v:
+                        continue
+                    if v > 709.78 and (worst is None or v > worst[0]):
+                        worst = (v, strip(r[col["isotope"]]), strip(r[col["daughter"]]), label, reaction, phi, tt, str(a_)[:120])
+    if worst is None:
+        ctx.ok("R6", "no exponential of the end-of-irradiation activity can overflow on the stated domain (all rows x domain corners)",
+               site=site, sample={"rows": nrows, "arguments_evaluated": nargs})
+    else:
+        v, iso_, dau, label, reaction, phi, tt, a_ = worst
+        ctx.fail("R6", "no exponential of the end-of-irradiation activity can overflow on the stated domain (all rows x domain corners)",
+                 f"exp/expm1 of {a_} = {v:.4g} > 709.78 for {iso_} -> {dau} ('{reaction}', {label}) at fluence {phi:g}, exposure {tt:g} h: "
+                 "OverflowError instead of an activity", site, witness=f"{iso_} fluence={phi:g} exposure={tt:g}")
+    ctx.floor("R6", 1)
+
+
 def run(ctx):
     P = lambda n: sp.Symbol(n, positive=True)
     t, T, m = P("t"), P("T"), P("mass")
@@ -78,6 +129,7 @@ def run(ctx):
         root = flux * ixs * sp.Rational(1, 10 ** 24) * m / P("A") * sp.Rational("1.6278e19")
         return flux * ixs * rates, P("phi") * exs * rates, root
 
+    branch_exprs = {}
     # ---- R1 chains ----------------------------------------------------------------
     for fast, Cd, fr, label in ((False, 1 + c, 0, "thermal, Cd ratio >= 1"), (True, 0, P("fr"), "fast, no epithermal"),
                                 (False, 0, 0, "thermal, Cd ratio 0")):
@@ -110,7 +162,8 @@ def run(ctx):
                                   f"the t^{order} Taylor coefficients of the exact and the small-argument arm differ "
                                   f"by {_s(coeff, 200)}", site, witness=wit, sample={"small arm": _s(small[0], 200)})
                 else:
-                    ctx.ok("R2", f"no separate small-argument arm ({label})", site=site)
+                    for order in (0, 1, 2):
+                        ctx.ok("R2", f"no separate small-argument arm: nothing to agree with at order t^{order} ({label})", site=site)
             elif reaction == "b":
                 eq(ctx, "R1", f"'b' ({label}): daughter fed by the decay of the activated parent",
                    spec.residual_b(y, t, lam, lam_p, root), 0, site)
@@ -120,6 +173,7 @@ def run(ctx):
                 eq(ctx, "R1", f"'2n' ({label}): y(0) = 0", y.subs(t, 0), 0, site)
                 eq(ctx, "R1", f"'2n' ({label}): y'(0) = 0", sp.diff(y, t).subs(t, 0), 0, site)
                 eq(ctx, "R1", f"'2n' ({label}): y''(0) = lam k2 root", sp.diff(y, t, 2).subs(t, 0), lam * k2 * root, site)
+            branch_exprs[(label, reaction, fast)] = y
             # R3: rest decay and mass linearity
             yT = sp.sympify(res[rec][1])
             eq(ctx, "R3", f"'{reaction}' ({label}): rest time T multiplies by 2^(-T/T_half)", yT, y * 2 ** (-T / P("Th")), site)
@@ -128,6 +182,7 @@ def run(ctx):
                       f"degree {deg} in mass", site)
     ctx.floor("R1", 24)
     ctx.floor("R2", 9)
+    _overflow(ctx, branch_exprs, site)
 
     # ---- R3 guards ------------------------------------------------------------------
     w, iso, rec, env = make(ctx, "act", True, 0, 0)
@@ -220,7 +275,15 @@ PROBE = {1: "101", 2: "26", 4: "56", 6: "6.5", 11: "11.5", 13: "y", 14: "14.5", 
 def _r5(ctx):
     F = folder(ctx)
     names = F.const("activation", "COLUMN_NAMES")
-    INT, BOOL, FLT = (F.const("activation", n) for n in ("INT_COLUMNS", "BOOL_COLUMNS", "FLOAT_COLUMNS"))
+    # which columns are integers, flags and numbers is part of the table's format (the documented attributes of a record):
+    # stated here by attribute name, so that the rule does not depend on how the reader organises its conversions
+    kinds = {"int": ("_index", "Z", "A"), "bool": ("fast",),
+             "float": ("abundance", "Thalf_hrs", "thermalXS", "gT", "resonance", "percentIT", "Thalf_parent",
+                       "thermalXS_parent", "resonance_parent")}
+    col_of = {nm: i for i, nm in enumerate(names)}
+    INT, BOOL, FLT = ([col_of[n] for n in kinds[k] if n in col_of] for k in ("int", "bool", "float"))
+    if len(INT) != 3 or len(BOOL) != 1 or len(FLT) < 8:
+        raise AnalysisError(f"COLUMN_NAMES does not list the documented numeric attributes: {names}")
     site = fsite(ctx, "activation.init")
     text = ctx.src.data_file("periodictable/activation.dat")
     rows = [r.split("\t") for r in text.split("\n") if r.strip() != ""]
